@@ -38,7 +38,7 @@ def judge(ctx, items, res, driver, case):
     if any(i['k'] == 'align' for i in items):
         cls += ':with-align'
     key = '%s:%s:%s:%s' % (PROP, progs.head(it) if it else 'program', progs.spec_class(it) if it else '-', cls)
-    msg = str(c.exc).splitlines()[-1] if str(c.exc) else repr(c.exc)
+    msg = kernel.errline(c.exc)
     ctx.violation(key, 'assembles without -c (%d bytes) but with -c fails at %r: %s' % (len(u.out), it['text'][:60] if it else '?', msg[:160]),
                   driver, case, expected='accepted with -c as well', observed=repr(c.exc)[:300])
 
